@@ -533,12 +533,20 @@ func decodeAnyDeadline(tname string, x interface{}, limit time.Duration) (oc out
 		oc, v := decodeAnyValue(tname, x)
 		ch <- result{oc, v}
 	}()
-	select {
-	case res := <-ch:
-		return res.oc, res.v, false
-	case <-time.After(limit):
-		return outcome{Class: "hang"}, nil, true
+	// three rounds: a read that has finished is always preferred to an expired timer (a stalled process must not look like a hang)
+	for round := 0; round < 3; round++ {
+		select {
+		case res := <-ch:
+			return res.oc, res.v, false
+		case <-time.After(limit / 3):
+		}
+		select {
+		case res := <-ch:
+			return res.oc, res.v, false
+		default:
+		}
 	}
+	return outcome{Class: "hang"}, nil, true
 }
 
 // NewInterfaceReader(x) + the generated UnmarshalRestLi of tname
@@ -647,8 +655,12 @@ func runCAny(cfg *hx.Config) {
 	for _, tname := range anyTops {
 		t := ref(tname)
 		isRecord := schema.Types[tname].Kind == "record"
+		nJ, nH, nT := nJSON, nHostile, nTyped
+		if tname == "Wide" {
+			nJ = nJSON / 2
+		}
 		// ---- (a) JSON-derived
-		for i := 0; i < nJSON; i++ {
+		for i := 0; i < nJ; i++ {
 			v := schema.gen(r, t, genOpts{utf8: true, depth: 1 + r.Intn(3)})
 			base := schema.refEncode(t, v)
 			d := base
@@ -846,7 +858,7 @@ func runCAny(cfg *hx.Config) {
 			emit(tname, x, oc, got, anyDesc{Source: "typed", Document: text, Value: desc, Note: note})
 		}
 		// ---- (d) a deep pointer chain, (e) cyclic values: oracle only, every read under a deadline
-		deadline := 2 * time.Second
+		deadline := 3 * time.Second
 		watch := func(x interface{}, desc, note string) {
 			if hangs >= 2 {
 				return // every hung read keeps spinning in its goroutine: two failing inputs are enough
